@@ -6,12 +6,14 @@
 //     lock held across a blocking call does not freeze the virtual clock;
 //   - all waiters are woken on release and race for the lock in run-queue order, which the
 //     seeded yields perturb.
+//
 // Only valid under the simulator's execution model: one P, no asynchronous preemption
 // (goroutines switch only at blocking operations), which hysim.Main enforces.
 package simsync
 
 import (
 	"sync"
+	"sync/atomic"
 
 	"verif.local/hysim"
 )
@@ -49,9 +51,18 @@ func (q *waitq) wakeAll() {
 	}
 }
 
+// hb carries the happens-before edges of a lock for race-detector builds (the detector models
+// atomic operations as synchronisation): acquire() after taking the lock, release() before giving
+// it up. The lock state itself is plain data - under the simulator nothing runs in parallel.
+type hb struct{ v atomic.Int32 }
+
+func (h *hb) acquire() { h.v.Load() }
+func (h *hb) release() { h.v.Add(1) }
+
 type Mutex struct {
 	held bool
 	q    waitq
+	hb   hb
 }
 
 func (m *Mutex) Lock() {
@@ -60,6 +71,7 @@ func (m *Mutex) Lock() {
 		m.q.park()
 	}
 	m.held = true
+	m.hb.acquire()
 }
 
 func (m *Mutex) TryLock() bool {
@@ -68,6 +80,7 @@ func (m *Mutex) TryLock() bool {
 		return false
 	}
 	m.held = true
+	m.hb.acquire()
 	return true
 }
 
@@ -75,16 +88,18 @@ func (m *Mutex) Unlock() {
 	if !m.held {
 		panic("sync: unlock of unlocked mutex")
 	}
+	m.hb.release()
 	m.held = false
 	m.q.wakeAll()
 	hysim.Yield("mutex.Unlock")
 }
 
 type RWMutex struct {
-	w       bool
-	r       int
-	wwait   int // writers waiting: new readers queue behind them, like the real RWMutex
-	q       waitq
+	w     bool
+	r     int
+	wwait int // writers waiting: new readers queue behind them, like the real RWMutex
+	q     waitq
+	hb    hb
 }
 
 func (m *RWMutex) Lock() {
@@ -95,6 +110,7 @@ func (m *RWMutex) Lock() {
 	}
 	m.wwait--
 	m.w = true
+	m.hb.acquire()
 }
 
 func (m *RWMutex) TryLock() bool {
@@ -103,6 +119,7 @@ func (m *RWMutex) TryLock() bool {
 		return false
 	}
 	m.w = true
+	m.hb.acquire()
 	return true
 }
 
@@ -110,6 +127,7 @@ func (m *RWMutex) Unlock() {
 	if !m.w {
 		panic("sync: Unlock of unlocked RWMutex")
 	}
+	m.hb.release()
 	m.w = false
 	m.q.wakeAll()
 	hysim.Yield("rwmutex.Unlock")
@@ -121,6 +139,7 @@ func (m *RWMutex) RLock() {
 		m.q.park()
 	}
 	m.r++
+	m.hb.acquire()
 }
 
 func (m *RWMutex) TryRLock() bool {
@@ -129,6 +148,7 @@ func (m *RWMutex) TryRLock() bool {
 		return false
 	}
 	m.r++
+	m.hb.acquire()
 	return true
 }
 
@@ -136,6 +156,7 @@ func (m *RWMutex) RUnlock() {
 	if m.r <= 0 {
 		panic("sync: RUnlock of unlocked RWMutex")
 	}
+	m.hb.release()
 	m.r--
 	if m.r == 0 {
 		m.q.wakeAll()
